@@ -121,7 +121,8 @@ pub fn tokens(name: &str, rng: &mut Rng) -> Vec<u8> {
                     v.extend(unit(0xDC00 + rng.below(0x400) as u16));
                     v
                 }
-                75..=84 => unit(0xD800 + rng.below(0x800) as u16),
+                75..=79 => unit(0xD800 + rng.below(0x800) as u16),
+                80..=84 => unit(*rng.pick(&[0xD800u16, 0xDBFF, 0xDC00, 0xDFFF, 0xDC00, 0xDFFF])),
                 85..=92 => vec![*rng.pick(&a)],
                 _ => (0..1 + rng.below(3)).map(|_| rng.below(256) as u8).collect(),
             }
